@@ -48,6 +48,7 @@ def space():
         Axis('data', ('generic',) + S.DEGENERATE_KINDS),
         Axis('start', ('soft', 'onehot', 'soft_singleton', 'nc0', 'nc1', 'nc2')),
         Axis('iterations', (2, 1, 5)),
+        Axis('layout', A.LAYOUTS),      # memory layout of the observation (and embedding) tensors
     ]
 
     def valid(p):
@@ -184,6 +185,10 @@ def build(p, seed):
             emb = emb / np.where(nrm == 0, 1, nrm)
         if single:
             emb = emb.astype(np.float32)
+    if p.get('layout', 'C') != 'C':
+        y = A.relayout(y, p['layout'])
+        if emb is not None:
+            emb = A.relayout(emb, p['layout'])
     wca = S.resolve_wca(model, p['wca'], p['aligner'], lead)
     opts = dict(weight_constant_axis=wca)
     sal = S.make_saliency(lead, N, p['saliency'])
